@@ -599,6 +599,8 @@ func (jp *jobProvider) truncateJob(job *Job) {
 	job.ignoreEventsLE = job.lastEventSeq
 
 	job.seek(0, io.SeekStart, "truncation")
+	// an unfinished line read before the truncation must not be glued to what is written afterwards
+	job.tail = job.tail[:0]
 
 	for _, strOff := range job.offsets {
 		job.offsets.Set(strOff.Stream, 0)
